@@ -162,7 +162,7 @@ pub fn c09(args: &Args) -> Acc {
         total.merge(acc);
     }
     if args.want_stage("random") {
-        let n = args.n(300_000, 20_000_000);
+        let n = args.n(1_000_000, 30_000_000);
         let mut models: Vec<ModelId> = BUILTIN.to_vec();
         models.extend(EXTERNAL);
         let acc = par_cases(n, args.threads, args.case, |idx, a| {
@@ -226,26 +226,27 @@ fn reset_monitor(log: &[PEv], rst: bool) -> Result<(), (String, String)> {
         })
         .collect();
     if rst {
-        if rsts.len() < 2 {
-            return Err(("reset-pulse-missing".into(), format!("{} reset pin writes", rsts.len())));
-        }
-        if rsts[0].1 {
-            return Err(("reset-first-edge-not-low".into(), "first reset pin write drives it high".into()));
-        }
-        if !rsts[1].1 {
-            return Err(("reset-not-released".into(), "second reset pin write is low again".into()));
-        }
-        let width = rsts[1].2 - rsts[0].2;
-        if width < 10_000 {
-            return Err(("reset-pulse-too-short".into(), format!("reset low for {} ns (< 10 us)", width)));
-        }
-        if rsts.len() > 2 {
-            return Err(("reset-extra-edges".into(), format!("{} reset pin writes", rsts.len())));
+        // the pulse = last falling edge before the first bus event, and the rising edge after it
+        let limit = first_cmd.unwrap_or(log.len());
+        let Some(low) = rsts.iter().rev().find(|r| !r.1 && r.0 < limit) else {
+            if rsts.iter().any(|r| !r.1) {
+                return Err(("bus-before-reset".into(), "the reset pin was driven low only after something was put on the bus".into()));
+            }
+            return Err(("reset-pulse-missing".into(), format!("{} reset pin writes, none of them low", rsts.len())));
+        };
+        let Some(high) = rsts.iter().find(|r| r.1 && r.0 > low.0) else {
+            return Err(("reset-not-released".into(), "the reset pin is never driven high after the low pulse".into()));
+        };
+        if high.2 - low.2 < 10_000 {
+            return Err(("reset-pulse-too-short".into(), format!("reset low for {} ns (< 10 us)", high.2 - low.2)));
         }
         if let Some(fc) = first_cmd {
-            if fc < rsts[1].0 {
-                return Err(("bus-before-reset-released".into(), format!("bus command at timeline index {} before the reset pin went high (index {})", fc, rsts[1].0)));
+            if fc < high.0 {
+                return Err(("bus-before-reset-released".into(), format!("bus command at timeline index {} before the reset pin went high (index {})", fc, high.0)));
             }
+        }
+        if rsts.iter().any(|r| !r.1 && r.0 > high.0) {
+            return Err(("reset-low-again".into(), "the reset pin is driven low again after the pulse".into()));
         }
         if !soft.is_empty() {
             return Err(("soft-reset-with-reset-pin".into(), format!("{} software reset command(s) although a reset pin is configured", soft.len())));
@@ -365,7 +366,7 @@ pub fn c11(args: &Args) -> Acc {
                     } else {
                         // refused: nothing but the reset may have happened
                         let model_cmds = panel.cmds - panel.op_hist[0x01] as u64;
-                        if model_cmds != 0 || tl.0.borrow().delay_calls > 1 {
+                        if model_cmds != 0 {
                             a.violate(
                                 "builder",
                                 idx,
@@ -437,7 +438,7 @@ pub fn c11(args: &Args) -> Acc {
                 Ok(Err(InitResult::Unsupported)) => {
                     if supported {
                         a.violate("direct", idx, format!("supported-pairing-refused/{}/{:?}", m.name(), kind), "UnsupportedInterface".to_string(), cj());
-                    } else if tl.0.borrow().l1_calls != 0 || tl.0.borrow().delay_calls != 0 {
+                    } else if tl.0.borrow().l1_calls != 0 {
                         a.violate("direct", idx, format!("refused-after-commands/{}", m.name()), format!("{} interface calls, {} delays before refusing", tl.0.borrow().l1_calls, tl.0.borrow().delay_calls), cj());
                     } else {
                         a.count("refusals_checked", 1);
@@ -540,7 +541,7 @@ pub fn c17(args: &Args) -> Acc {
 
 pub fn c13(args: &Args) -> Acc {
     let mut total = Acc::new();
-    let n = args.n(6000, 300_000);
+    let n = args.n(60_000, 1_500_000);
     let acc = par_cases(n, args.threads, args.case, |idx, a| {
         let mut rng = Rng::for_case(args.seed, "C13", &args.tier, idx);
         let mut cfg = gen::gen_cfg(&mut rng, &CfgOpts { external: idx % 4 == 0, l1: true, l2: true, max_l2_area: 64 });
@@ -673,7 +674,7 @@ pub fn c13(args: &Args) -> Acc {
 
 pub fn c10(args: &Args) -> Acc {
     let mut total = Acc::new();
-    let n = args.n(4000, 200_000);
+    let n = args.n(40_000, 1_000_000);
     let acc = par_cases(n, args.threads, args.case, |idx, a| {
         let mut rng = Rng::for_case(args.seed, "C10", &args.tier, idx);
         let mut cfg = gen::gen_cfg(&mut rng, &CfgOpts { external: true, l1: true, l2: true, max_l2_area: 24 * 24 });
